@@ -72,9 +72,16 @@ R = Rules(
         "delete cancels the timer and runs the delete callback; (e) both lookup interfaces enumerate "
         "common_rd.get_endpoints() = _by_key.values() and nothing else, host links and based links are computed "
         "from the registration's current attributes; (f) update_params refuses ep, d and the reserved lookup "
-        "parameters before any store.  Not decided: the passage of time, pagination arithmetic."
+        "parameters before any store; (g) a replaced registration is deleted before the new one takes over; (h) the "
+        "link computations mutate only containers they created; (i) the serialiser writes a value-less attribute "
+        "only for the value None; (j) the block-wise layer renders a lookup afresh for every request that begins a "
+        "retrieval and cuts all later blocks from that one rendering (obligations of C06.f on "
+        "Block2Cache.extract_or_insert, run here); (k) util.linkformat.parse and cli.rd.link_format_from_message hand "
+        "on every parsed link with its target and every attribute pair, repeated names included, and the Link / "
+        "LinkFormat constructors keep what they are given (abstract interpretation of the link-format data flow).  "
+        "Not decided: the passage of time, pagination arithmetic, the vendored parser's own scanning."
     ),
-    rule_text="effect-ordering on per-function CFGs with inlined callee summaries and escape sets, field ownership and pairing, dominance, polynomial normal forms, class-hierarchy facts, partial evaluation of branch conditions under a key-presence assumption, freshness of mutated objects",
+    rule_text="effect-ordering on per-function CFGs with inlined callee summaries and escape sets, field ownership and pairing, dominance, polynomial normal forms, class-hierarchy facts, partial evaluation of branch conditions under a key-presence assumption, freshness of mutated objects, abstract interpretation of link-format structures (sequence completeness, keyed-collection loss, witness-based filter evaluation), path-by-path symbolic execution of the Block2 cache (shared with C06)",
 )
 
 RDMOD = "aiocoap.cli.rd"
@@ -1923,6 +1930,138 @@ def i_linkformat(ctx):
                detail="conditions: %s" % [(stmt_text(e, 40), p) for e, p in conds])
 
 
+class _OnlyIn:
+    """A view of the clause context that records only the obligations pinned to one function (everything else --
+    need / floor / note / extra, the clause id -- is the context's own)."""
+
+    def __init__(self, ctx, short):
+        self.__dict__["_ctx"] = ctx
+        self.__dict__["_short"] = short
+        self.__dict__["kept"] = 0
+        self.__dict__["dropped"] = 0
+
+    def __getattr__(self, name):
+        return getattr(self._ctx, name)
+
+    def __setattr__(self, name, value):
+        setattr(self._ctx, name, value)
+
+    def ob(self, desc, ok, fi=None, node=None, detail=None, construct=None):
+        if fi is not None and fi.short == self._short:
+            self.__dict__["kept"] += 1
+            return self._ctx.ob(desc, ok, fi, node, detail=detail, construct=construct)
+        self.__dict__["dropped"] += 1
+        return ok
+
+
+@R.clause("C20.j", "a lookup that spans several blocks is one snapshot of the directory, taken when it begins: a request without Block2 or for block 0 is rendered afresh, later blocks are cut from that rendering (shared with C06.f)")
+def j_shared(ctx):
+    """Lookups reach the client through the server-side block-wise layer (interfaces.Resource._render_to_pipe ->
+    Block2Cache.extract_or_insert(request, lambda: self.render(request))).  An independently written breaking change
+    answered a request that names block 0 explicitly (early block size negotiation) from the rendering stored for an
+    earlier lookup of the same client and query: the second lookup listed an endpoint that had been removed in
+    between and missed the one registered in between.  "Lookups list exactly the endpoints that are live" therefore
+    needs, of extract_or_insert, that
+      * render_get runs for every request that begins a retrieval (no Block2 option, or block number 0) -- the
+        listing is computed from the tables as they are *now*, never taken from the cache;
+      * it runs for no other request, a later block is cut from the rendering stored under this request's own
+        transfer key, and a rendering that needs several blocks is stored under that key -- the blocks a client
+        puts together are all slices of the one listing made when its lookup began, not a mixture of directory
+        states (an endpoint on a block boundary would be listed twice or not at all) nor somebody else's listing.
+    These are the obligations C06.f decides on Block2Cache.extract_or_insert (path by path, over every spelling of
+    the Block2 tests); they are run here, not restated.  Only the obligations pinned to extract_or_insert -- from
+    which rendering an answer is taken -- are recorded under this id: how a block is cut out of a rendering
+    (Message._extract_block: offsets, more-flag) and which error classes may escape are the block-wise layer's own
+    affair (C06) and no condition of C20.  A refusal of C06.f is a refusal here."""
+    from . import c06
+    view = _OnlyIn(ctx, "blockwise.Block2Cache.extract_or_insert")
+    c06.f(view)
+    ctx.floor("obligations of C06.f on Block2Cache.extract_or_insert", view.kept, 3)
+    ctx.note("%d obligation(s) of C06.f recorded, %d on other functions left to C06" % (view.kept, view.dropped))
+
+
+@R.clause("C20.k", "the links a registration stores are the links that were written: the parser's result reaches the registration with every link, its target and every attribute pair (repeated attribute names included)")
+def k_links_complete(ctx):
+    """Added after an independently written breaking change rebuilt the parsed links as `Link(href, **dict(attrs))`:
+    going through a mapping keyed by the attribute name silently collapses an attribute that occurs more than once
+    in a link (legal for hreflang and extension attributes) to its last value, so resource lookups no longer showed
+    the links of the latest write and `?hreflang=en` no longer found them.
+
+    Necessary condition: what util.linkformat.parse returns -- and what cli.rd.link_format_from_message hands to the
+    request handlers -- is a LinkHeader object with one Link per link of the vendored parser's result, in order,
+    each with that link's target and *all* of its attribute pairs.  Decided by abstract interpretation
+    (K.LinkFlow): the code is evaluated over abstract link-format values (header object, sequence with one element
+    per parsed link / per parsed pair, [key, value] display, mapping keyed by the attribute name, ...).  The result
+    may be the parser's own object (re-classed in place, as today) or a rebuilt one -- comprehension, loop +
+    append, map(), helper function, Link(href, pairs) / Link(*item) / Link(href=.., attr_pairs=..),
+    LinkFormat(links) / LinkFormat(data.to_py()): the constructors and methods are not tabulated, their bodies in
+    the analysed tree are evaluated by the same interpreter.  Reported as a violation only when elements are
+    provably dropped: the pairs pass through a mapping keyed by the attribute name (dict(), OrderedDict, dict
+    comprehension, **kwargs), a slice with constant bounds, an in-place removal, or a filter for which a witness
+    document exists (the condition is evaluated on sample targets / names / values, None included).  Anything the
+    interpreter cannot follow is a refusal, not a finding.
+
+    The same evaluation states two lemmas the lookups rely on as much as the parser does (get_based_links and the
+    lookup interfaces build their answers with these constructors): Link(href, pairs) keeps the target and every
+    pair it is given, LinkFormat(links) keeps every link."""
+    prog = ctx.prog
+    LFMOD = "aiocoap.util.linkformat"
+    refused = []
+    seen_nodes = set()
+
+    def judge(desc, fi, d, ok_construct, node=None):
+        if d is None:
+            ctx.ob(desc, True, fi, node if node is not None else fi.node, construct=ok_construct)
+        elif d[0] == "loss":
+            reason, lnode, lfi = d[1]
+            if id(lnode) not in seen_nodes:
+                seen_nodes.add(id(lnode))
+                ctx.ob(desc, False, lfi or fi, lnode, detail=reason)
+        else:
+            refused.append("%s: %s" % (fi.short, d[1]))
+
+    # lemmas: the constructors
+    link_cls = prog.cls("util.linkformat.Link").qn
+    hdr_cls = prog.cls("util.linkformat.LinkFormat").qn
+    done = set()
+    for cq in (link_cls, K.LinkFlow.LNK):
+        init = prog.lookup_method(cq, "__init__")
+        ctx.need(init is not None, "no constructor found for %s" % cq)
+        if init.qn in done:
+            continue
+        done.add(init.qn)
+        lf = K.LinkFlow(prog)
+        for how in ("positional", "keyword"):
+            pn = K.all_params(init)
+            ctx.need(len(pn) >= 3, "Link.__init__ signature changed")
+            if how == "positional":
+                o = lf.construct(cq, [K.Atom("href"), lf.pairs()], {})
+            else:
+                o = lf.construct(cq, [], {pn[1]: K.Atom("href"), pn[2]: lf.pairs()})
+            judge("Link(href, attr_pairs) keeps the target and every attribute pair it is given", init, lf.defect(o, "link"), "%s.__init__ (%s arguments)" % (cq.split(".")[-1], how))
+    done = set()
+    for cq in (hdr_cls, K.LinkFlow.HDR):
+        init = prog.lookup_method(cq, "__init__")
+        ctx.need(init is not None, "no constructor found for %s" % cq)
+        if init.qn in done:
+            continue
+        done.add(init.qn)
+        lf = K.LinkFlow(prog)
+        o = lf.construct(cq, [K.Seq(lf.link(link_cls), ("links",))], {})
+        judge("LinkFormat(links) keeps every link it is given", init, lf.defect(o, "header"), "%s.__init__" % cq.split(".")[-1])
+
+    # the parser wrapper and the function the request handlers obtain their links from
+    pf = prog.func("util.linkformat.parse")
+    mf = prog.func("cli.rd.link_format_from_message")
+    for fi, desc in ((pf, "parse() returns every link of the parser's result with its target and all of its attribute pairs"),
+                     (mf, "link_format_from_message hands the parsed links on unabridged")):
+        lf = K.LinkFlow(prog)
+        ctx.need(lf.reaches_source(fi), "%s no longer obtains its links from the vendored link_header.parse" % fi.short)
+        judge(desc, fi, lf.defect(lf.result_of(fi), "header"), "%s: result" % fi.name)
+    if refused:
+        raise AnalysisError("; ".join(refused))
+
+
 F = "aiocoap/cli/rd.py"
 # C20.a
 R.seed("C20.a", F, "                self.lt = set_lt\n", "                self.lt = set_lt\n                if set_lt < 60:\n                    raise error.BadRequest(\"lt too small\")\n", "raise after self.lt = ... on a published registration")
@@ -2011,3 +2150,19 @@ R.seed("C20.e", F,
        "        candidates = _paginate(candidates, query)\n\n        result = [c.get_host_link() for c in candidates]\n",
        "        candidates = _paginate(query=query, candidates=self._previous)\n\n        result = [c.get_host_link() for c in candidates]\n",
        "endpoint lookup paginates something that does not derive from the enumeration (keyword call)")
+
+# fifth pass: the block-wise layer between a lookup and its client (C20.j, shared with C06.f) and the way from the
+# parser to the registration (C20.k, K.LinkFlow)
+F_BW = "aiocoap/blockwise.py"
+F_LF = "aiocoap/util/linkformat.py"
+F_LH = "aiocoap/util/vendored/link_header.py"
+R.seed("C20.j", F_BW, "        if req.opt.block2 is None or req.opt.block2.block_number == 0:\n            assembled = await response_builder()\n",
+       "        if req.opt.block2 is None:\n            assembled = await response_builder()\n", "a lookup that names block 0 explicitly is answered from the cache (or 4.08) instead of being rendered")
+R.seed("C20.j", F_BW, "            self._completes[block_key] = assembled\n", "            self._completes[req.remote] = assembled\n", "renderings stored per client only: the later blocks of one lookup are cut from another lookup's listing")
+_LF_TAIL = "    data.__class__ = LinkFormat\n    for link in data.links:\n        link.__class__ = Link\n    return data\n"
+R.seed("C20.k", F_LF, _LF_TAIL, "    return LinkFormat([Link(link.href, list(dict(link.attr_pairs).items())) for link in data.links])\n", "links rebuilt through a dict: repeated attribute names collapse")
+R.seed("C20.k", F_LF, _LF_TAIL, "    out = LinkFormat()\n    for link in data.links:\n        out.links.append(Link(link.href, [p for p in link.attr_pairs if p[1] is not None]))\n    return out\n", "value-less attributes (flags such as obs) dropped while rebuilding the links")
+R.seed("C20.k", F_LF, _LF_TAIL, _LF_TAIL.replace("    return data\n", "        del link.attr_pairs[8:]\n    return data\n"), "attribute list of every parsed link truncated in place")
+R.seed("C20.k", F_LH, "            list(pair) for pair in (attr_pairs or []) + list(kwargs.items())\n", "            list(pair) for pair in list(dict(attr_pairs or []).items()) + list(kwargs.items())\n", "Link.__init__ de-duplicates the attribute names it is given")
+R.seed("C20.k", F_LH, "            link if isinstance(link, Link) else Link(*link) for link in links or []\n", "            link if isinstance(link, Link) else Link(*link) for link in (links or [])[:64]\n", "LinkHeader keeps only the first links it is given")
+R.seed("C20.k", F, "            return parse(message.payload.decode(\"utf8\"))\n", "            return LinkFormat(parse(message.payload.decode(\"utf8\")).links[:32])\n", "registrations are capped at a number of links on their way to the handlers")
